@@ -189,6 +189,125 @@ static void caseRoundTrip(vh::Rng& g)
 	}
 }
 
+// ----------------------------------------------------------------- automata that were not loaded
+// "every automaton in any of the four encodings": automata built through the mutators (sparse state numbers) and
+// results of operations, dumped without a dictionary (states named by their numbers), with a caller-made
+// dictionary of hostile names, loaded again and dumped again.  For the explicit tree encoding the independent side
+// is what iteration yields (a dump that omits something is stable under dump -> load -> dump: lesson of m48 / D14).
+typedef std::set<std::pair<std::pair<std::vector<std::string>, std::string>, std::string>> RuleSet;
+static RuleSet rulesOf(const AutDescription& d) { RuleSet r; for (auto& t : d.transitions) r.insert(std::make_pair(std::make_pair(t.first, t.second), t.third)); return r; }
+static std::set<std::string> finalsOf(const AutDescription& d) { return std::set<std::string>(d.finalStates.begin(), d.finalStates.end()); }
+
+template <class A>
+static void dumpLoadDump(const std::string& k, const A& r, const std::string& what)
+{
+	R->phase(k + " dump/load/dump of " + what); R->count("built:" + k);
+	try
+	{
+		std::string t1 = r.DumpToString(serializer()); R->desc(t1);
+		A y; AutBase::StateDict sd; y.LoadFromString(parser(), t1, sd); std::string t2 = y.DumpToString(serializer(), sd);
+		AutDescription d1 = parser().ParseString(t1), d2 = parser().ParseString(t2);
+		if (rulesOf(d1) != rulesOf(d2)) R->violation("C13/" + k + "/result/dump-load-dump/rules-differ", what + "\nfirst dump:\n" + t1 + "second dump:\n" + t2);
+		else if (finalsOf(d1) != finalsOf(d2)) R->violation("C13/" + k + "/result/dump-load-dump/final-states-differ", what + "\nfirst dump:\n" + t1 + "second dump:\n" + t2);
+	}
+	catch (std::exception& e) { R->violation("C13/" + k + "/result/exception", std::string(e.what()) + "\n" + what); }
+}
+
+static void caseRoundTripBuilt(vh::Rng& g)
+{
+	Alpha al = gen::randAlpha(g); std::string kind;
+	std::vector<St> st = gen::numbering(g, g.range(1, 5), static_cast<int>(g.below(4)));
+	RTA a = gen::randProductiveTA(g, al, st, g.range(1, 8)), b = gen::randProductiveTA(g, al, gen::numbering(g, g.range(1, 4), static_cast<int>(g.below(3))), g.range(1, 6));
+	if (g.chance(1, 3)) a.fin.insert(st[g.below(st.size())] + 50);        // final state without rules
+	R->desc(rm::toTimbuk(a, al, "A") + rm::toTimbuk(b, al, "B")); R->count("built-cases");
+	insertionRng() = &g;
+	{	// explicit tree automata
+		// the process-wide default alphabet (results of operations carry it whatever their operands had): symbols
+		// s<i> registered with their rank; (name, rank) pairs are distinct keys, so s1/1 and s1/2 may coexist
+		CaseAlphabet ca(al); { Aut tmp; ca.alpha = tmp.GetAlphabet(); auto tr = ca.alpha->GetSymbolTransl(); for (size_t i = 0; i < al.rank.size(); ++i) if (al.rank[i] >= 0) ca.num[i] = (*tr)(Aut::StringRank("s" + std::to_string(i), al.rank[i])); }
+		Aut x = mkExpl(a, ca), y = mkExpl(b, ca); Aut r; std::string what;
+		R->phase("expl built: operation");
+		switch (g.below(8))
+		{
+			case 0: r = x; what = "built through AddTransition/SetStateFinal"; break;
+			case 1: r = Aut::Union(x, y); what = "Union"; break;
+			case 2: r = Aut::Intersection(x, y); what = "Intersection"; break;
+			case 3: r = x.RemoveUselessStates(); what = "RemoveUselessStates"; break;
+			case 4: r = x.RemoveUnreachableStates(); what = "RemoveUnreachableStates"; break;
+			case 5: r = x.Reduce(); what = "Reduce"; break;
+			case 6: r = x.GetCandidateTree(); what = "GetCandidateTree"; break;
+			default: { Aut c(x); c.AddTransition({}, ca.num[0], st[0] + 7); c.SetStateFinal(st[0] + 7); r = c; what = "copy modified in place"; } break;
+		}
+		R->phase("expl built: dump vs iteration (" + what + ")"); R->count("built:expl");
+		try
+		{
+			RTA it = readExpl(r, &ca);
+			RuleSet want; std::set<std::string> wantFin; std::set<St> used;
+			for (auto& q : it.rules) { std::vector<std::string> ch; for (St c : q.ch) { ch.push_back(vh::str(c)); used.insert(c); } used.insert(q.par); want.insert(std::make_pair(std::make_pair(ch, "s" + vh::str(q.sym)), vh::str(q.par))); }
+			for (St f : it.fin) { wantFin.insert(vh::str(f)); used.insert(f); }
+			std::string t1 = r.DumpToString(serializer()); AutDescription d1 = parser().ParseString(t1);
+			if (rulesOf(d1) != want) R->violation("C13/expl/result/dump-differs-from-iteration/rules", what + "\n" + t1);
+			else if (finalsOf(d1) != wantFin) R->violation("C13/expl/result/dump-differs-from-iteration/final-states", what + "\n" + t1);
+			// a caller-made dictionary with hostile names: the dump must be the image of the rules under it
+			AutBase::StateDict sd; std::map<St, std::string> nm; std::set<std::string> taken;
+			for (St q : used) { std::string n; do { n = hostileName(g); } while (!taken.insert(n).second); nm[q] = n; sd.insert(std::make_pair(n, static_cast<size_t>(q))); }
+			std::string t2 = r.DumpToString(serializer(), sd); R->desc(t2); AutDescription d2 = parser().ParseString(t2);
+			RuleSet want2; std::set<std::string> wantFin2;
+			for (auto& q : it.rules) { std::vector<std::string> ch; for (St c : q.ch) ch.push_back(nm[c]); want2.insert(std::make_pair(std::make_pair(ch, "s" + vh::str(q.sym)), nm[q.par])); }
+			for (St f : it.fin) wantFin2.insert(nm[f]);
+			if (rulesOf(d2) != want2) R->violation("C13/expl/result/named-dump-differs-from-iteration/rules", what + "\n" + t2);
+			else if (finalsOf(d2) != wantFin2) R->violation("C13/expl/result/named-dump-differs-from-iteration/final-states", what + "\n" + t2);
+			// load the named dump: same rules and final states under the same names, read by iteration
+			Aut z; z.SetAlphabet(ca.alpha); AutBase::StateDict sd3; z.LoadFromString(parser(), t2, sd3);
+			RTA iz = readExpl(z, &ca); RuleSet got; std::set<std::string> gotFin;
+			auto back = [&](St q) { auto f = sd3.FindBwd(static_cast<size_t>(q)); return f == sd3.EndBwd() ? std::string("?") + vh::str(q) : f->second; };
+			for (auto& q : iz.rules) { std::vector<std::string> ch; for (St c : q.ch) ch.push_back(back(c)); got.insert(std::make_pair(std::make_pair(ch, "s" + vh::str(q.sym)), back(q.par))); }
+			for (St f : iz.fin) gotFin.insert(back(f));
+			if (got != want2) R->violation("C13/expl/result/reloaded-rules-differ", what + "\n" + t2);
+			else if (gotFin != wantFin2) R->violation("C13/expl/result/reloaded-final-states-differ", what + "\n" + t2);
+			if (!it.rules.empty()) R->nontrivial(vh::fnv("built" + t1));
+		}
+		catch (std::exception& e) { R->violation("C13/expl/result/exception", std::string(e.what()) + "\n" + what); }
+		dumpLoadDump<Aut>("expl", r, what);
+	}
+	insertionRng() = nullptr;
+	{	// symbolic encodings: results of operations (there is no read API besides the dump)
+		std::string ta = rm::toTimbuk(a, al, "A", "p"), tb = rm::toTimbuk(b, al, "B", "r");
+		int op = static_cast<int>(g.below(5));
+		try
+		{
+			{ SharedDict sd; BDDBottomUpTreeAut x = loadText<BDDBottomUpTreeAut>(ta, sd), y = loadText<BDDBottomUpTreeAut>(tb, sd); R->phase("bdd-bu built: operation");
+			  switch (op) { case 0: dumpLoadDump("bdd-bu", BDDBottomUpTreeAut::Union(x, y), "Union"); break; case 1: dumpLoadDump("bdd-bu", BDDBottomUpTreeAut::Intersection(x, y), "Intersection"); break;
+			                case 2: dumpLoadDump("bdd-bu", x.RemoveUselessStates(), "RemoveUselessStates"); break; case 3: dumpLoadDump("bdd-bu", x.RemoveUnreachableStates(), "RemoveUnreachableStates"); break;
+			                default: dumpLoadDump("bdd-td", x.GetTopDownAut(), "GetTopDownAut"); break; } }
+			{ SharedDict sd; BDDTopDownTreeAut x = loadText<BDDTopDownTreeAut>(ta, sd), y = loadText<BDDTopDownTreeAut>(tb, sd); R->phase("bdd-td built: operation");
+			  switch (op) { case 0: dumpLoadDump("bdd-td", BDDTopDownTreeAut::Union(x, y), "Union"); break; case 1: dumpLoadDump("bdd-td", BDDTopDownTreeAut::Intersection(x, y), "Intersection"); break;
+			                case 2: dumpLoadDump("bdd-td", x.RemoveUselessStates(), "RemoveUselessStates"); break; case 3: dumpLoadDump("bdd-td", x.RemoveUnreachableStates(), "RemoveUnreachableStates"); break;
+			                default: dumpLoadDump("bdd-td", BDDTopDownTreeAut::UnionDisjointStates(x, y), "UnionDisjointStates"); break; } }
+		}
+		catch (std::exception& e) { R->violation("C13/bdd/result/exception", std::string(e.what()) + "\n" + ta + tb); }
+	}
+	{	// word automata: results of operations
+		int nsym = g.range(1, 3); RFA fa = gen::randLiveFA(g, 5, 8, nsym), fb = gen::randLiveFA(g, 4, 6, nsym);
+		std::string ta = faToTimbuk(fa, nsym, "A", "p"), tb = faToTimbuk(fb, nsym, "B", "r"); R->desc(ta + tb);
+		try
+		{
+			SharedDict sd; ExplicitFiniteAut x = loadText<ExplicitFiniteAut>(ta, sd), y = loadText<ExplicitFiniteAut>(tb, sd); R->phase("expl_fa built: operation");
+			switch (g.below(7))
+			{
+				case 0: dumpLoadDump("expl_fa", ExplicitFiniteAut::Union(x, y), "Union"); break;
+				case 1: dumpLoadDump("expl_fa", ExplicitFiniteAut::Intersection(x, y), "Intersection"); break;
+				case 2: dumpLoadDump("expl_fa", x.Reverse(), "Reverse"); break;
+				case 3: dumpLoadDump("expl_fa", x.RemoveUselessStates(), "RemoveUselessStates"); break;
+				case 4: dumpLoadDump("expl_fa", x.RemoveUnreachableStates(), "RemoveUnreachableStates"); break;
+				case 5: dumpLoadDump("expl_fa", x.GetCandidateTree(), "GetCandidateTree"); break;
+				default: dumpLoadDump("expl_fa", ExplicitFiniteAut::UnionDisjointStates(x, y), "UnionDisjointStates"); break;
+			}
+		}
+		catch (std::exception& e) { R->violation("C13/expl_fa/result/exception", std::string(e.what()) + "\n" + ta + tb); }
+	}
+}
+
 // ----------------------------------------------------------------- robustness
 static std::vector<std::string>& corpus()
 {
@@ -321,7 +440,7 @@ static void caseC13(uint64_t idx, vh::Rng& g)
 {
 	// chosen by the case's own PRNG, not by the index: shards take the indices i = k (mod n), and every process must
 	// interleave round trips with hostile inputs (a parser that remembers something from a rejected input)
-	(void)idx; if (g.below(8) == 0) caseRoundTrip(g); else caseRobust(g);
+	(void)idx; { uint64_t k = g.below(16); if (k < 2) caseRoundTrip(g); else if (k < 4) caseRoundTripBuilt(g); else caseRobust(g); }
 }
 
 int main(int argc, char** argv)
